@@ -29,18 +29,25 @@ func (a Arch) MarshalControl() (string, error) {
 }
 
 func (a Arch) String() string {
-	/* ABI-OS-CPU -- gnu-linux-amd64 */
-	els := []string{}
-	if a.ABI != "any" && a.ABI != "all" && a.ABI != "gnu" && a.ABI != "" {
-		els = append(els, a.ABI)
+	/* ABI-OS-CPU -- gnu-linux-amd64
+	 *
+	 * This has to be the inverse of parseArchInto, so only drop what the
+	 * parser puts back: a lone `any` or `all` is all three parts, any other
+	 * lone name is gnu-linux-<cpu>, and OS-CPU leaves the ABI at `any` (or
+	 * unset, when unmarshalled into a zero Arch). A CPU with a `-` in it
+	 * only survives in the full three part form. */
+	if a.ABI == a.OS && a.OS == a.CPU && (a.CPU == "any" || a.CPU == "all") {
+		return a.CPU
 	}
-
-	if a.OS != "any" && a.OS != "all" && a.OS != "linux" {
-		els = append(els, a.OS)
+	if !strings.Contains(a.CPU, "-") {
+		if a.ABI == "gnu" && a.OS == "linux" && a.CPU != "any" && a.CPU != "all" {
+			return a.CPU
+		}
+		if a.ABI == "any" || a.ABI == "" {
+			return a.OS + "-" + a.CPU
+		}
 	}
-
-	els = append(els, a.CPU)
-	return strings.Join(els, "-")
+	return a.ABI + "-" + a.OS + "-" + a.CPU
 }
 
 func (set ArchSet) String() string {
